@@ -580,7 +580,7 @@ package block
 // on a chain that starts now - no state, no submission watermarks - nothing counts as waiting for DA
 // submission, whatever the initial height is.
 //@ func NewManager(ctx, signer, config, genesis, store, exec, sequencer, da, logger, headerStore, dataStore, headerBroadcaster, dataBroadcaster, seqMetrics, gasPrice, gasMultiplier, managerOpts) (m, err)
-//@   property C04:height-is-state,height-never-lowered C05:height-is-state,height-never-lowered C06:nothing-pending-on-fresh-chain,watermarks-only-raised C07:da-included-restored,da-included-zero-on-fresh-chain C08:nothing-pending-on-fresh-chain
+//@   property C04:height-is-state,height-never-lowered C05:height-is-state,height-never-lowered C06:nothing-pending-on-fresh-chain,watermarks-only-raised,watermarks-exact C07:da-included-restored,da-included-zero-on-fresh-chain C08:nothing-pending-on-fresh-chain
 //@   requires [wiring] store != nil && exec != nil && logger != nil
 //@   requires [genesis] genesis.InitialHeight >= 1
 //@   requires [height-range] store.height < 18446744073709551615
@@ -597,6 +597,11 @@ package block
 // C07: the DA-included height a restarted node reports is the persisted one (never less), and a new chain starts at 0
 //@   ensures [da-included-restored] err == nil && !store.faulty && old(store.metaHas["d"]) && blen(old(store.meta["d"])) == 8 ==> m.daIncludedHeight == le64dec(old(store.meta["d"]))
 //@   ensures [da-included-zero-on-fresh-chain] err == nil && !store.faulty && !old(store.metaHas["d"]) ==> m.daIncludedHeight == 0
+// after start-up each submission watermark is the stored one, or InitialHeight-1 if that is larger: never
+// further - blocks committed before the restart and not yet accepted by the DA layer stay pending
+//@   ensures [watermarks-exact] err == nil && !store.faulty ==>
+//@                       m.pendingHeaders.base.lastHeight == max(ite(old(store.metaHas["last-submitted-header-height"]), le64dec(old(store.meta["last-submitted-header-height"])), 0), genesis.InitialHeight - 1)
+//@                       && m.pendingData.base.lastHeight == max(ite(old(store.metaHas["last-submitted-data-height"]), le64dec(old(store.meta["last-submitted-data-height"])), 0), genesis.InitialHeight - 1)
 //@   ensures [watermarks-only-raised] err == nil && old(store.metaHas["last-submitted-header-height"]) && !store.faulty
 //@                       ==> m.pendingHeaders.base.lastHeight >= le64dec(old(store.meta["last-submitted-header-height"]))
 
@@ -661,7 +666,7 @@ package block
 //@   ensures [future-msg] res.Code == coreda.StatusHeightFromFuture ==> msgHas(err, coreda.ErrHeightFromFuture)
 
 //@ func (m *Manager) handlePotentialHeader(ctx, bz, daHeight) (handled)
-//@   property C03 C07 C09
+//@   property C02 C03 C07 C09
 //@   nopanic
 //@   requires [wiring] m.metrics != nil && m.headerCache != nil && m.logger != nil && ctx != nil && len(m.genesis.ProposerAddress) > 0
 //@   observe iu := call isUsingExpectedSingleSequencer
@@ -679,7 +684,7 @@ package block
 //@   ensures [mark-every-genuine] handled && !sdi ==> (fpr && fpr.res0 != nil) || (iu && !iu.res0)
 
 //@ func (m *Manager) handlePotentialData(ctx, bz, daHeight)
-//@   property C03 C07 C09
+//@   property C02 C03 C07 C09
 //@   nopanic
 //@   requires [wiring] m.metrics != nil && m.dataCache != nil && m.logger != nil && ctx != nil && len(m.genesis.ProposerAddress) > 0
 //@   observe iv := call isValidSignedData
@@ -694,7 +699,7 @@ package block
 //@   ensures [mark-every-genuine] !sdi ==> (pu && pu.res0 != nil) || (fpd && fpd.res0 != nil) || len(signedData.Data.Txs) == 0 || signedData.Data.Metadata == nil || (iv && !iv.res0)
 
 //@ func (m *Manager) processNextDAHeaderAndData(ctx) (err)
-//@   property C09
+//@   property C02 C09
 //@   requires [wiring] m.metrics != nil && m.daHeight != nil && m.headerCache != nil && m.dataCache != nil && m.logger != nil && ctx != nil && len(m.genesis.ProposerAddress) > 0
 //@   observe fb := call fetchBlobs
 //@   observe hph := call handlePotentialHeader
@@ -714,7 +719,7 @@ package block
 //@   ensures [any] true
 
 //@ func (m *Manager) RetrieveLoop(ctx)
-//@   property C09
+//@   property C02 C09
 //@   requires [wiring] m.metrics != nil && m.daHeight != nil && m.headerCache != nil && m.dataCache != nil && ctx != nil && m.logger != nil && len(m.genesis.ProposerAddress) > 0
 //@   observe pn := call processNextDAHeaderAndData
 //@   modifies m.daHeight.v, m.headerCache.daInc, m.headerCache.daIncHas, m.dataCache.daInc, m.dataCache.daIncHas
